@@ -87,6 +87,20 @@ def observe(eh, en, arch, rid: int, enc: bytes, addr: int, seed: int, vh=None) -
     out = [{"id": rid, "impl": "py", "b": list(enc) + [0] * (8 - len(enc)), "n": len(enc), "regs": regs, "mem": mem, "ilen": ilen, "br": br,
             "post": st1["regs"], "fin": [[a, v] for a, v in fin], "err": 1 if (st1["err"] or ierr) else 0, "seed": seed, "addr": addr,
             "errtext": (st1["err"] or "") + ierr}]
+    if not ierr and not st1["err"]:
+        # the same metadata against a LONG-LIVED Python emulator that has just executed, at this very address, a sibling of the
+        # instruction (same opcode and prefix, other operand bytes) - code that was patched or reloaded between two executions
+        pre = 1 if enc[0] in c04.PRE_SET else 0
+        if len(enc) > pre + 1:
+            sib = bytes(enc[:-1]) + bytes([enc[-1] ^ 0x5A])
+            regs_s, mem_s = en.build_case(sib, st)
+            eh.run_longlived(regs_s, mem_s + mem[len(mem_s):], hashed=True)
+        q = eh.run_longlived(regs, mem, hashed=True)
+        sq = q["steps"][0]
+        finq = sorted({a: q["_mem"].mem[a] for a, _ in sq["writes"]}.items())
+        out.append({"id": rid + 100_000_000, "impl": "pyl", "b": out[0]["b"], "n": len(enc), "regs": regs, "mem": mem, "ilen": ilen, "br": br,
+                    "post": sq["regs"], "fin": [[a, v] for a, v in finq], "err": 1 if sq["err"] else 0, "seed": seed, "addr": addr,
+                    "errtext": str(sq["err"] or "")})
     if vh is not None and not ierr:
         # the same metadata against where the Rust core goes
         r = vh.call("exec.run", regs=regs, mem=mem, n=1, hashed=True)
